@@ -1889,7 +1889,7 @@ class StateEngine(object):
                     else:
                         handle_error(state, data.get("Error"), data.get("Cause"))
                 else:
-                    asl_state_collect_results(state_type)
+                    asl_state_collect_results(state_type, held=(id != None))
             else:
                 """
                 If task_terminated just tidy up self.branch_metadata for current
@@ -3277,11 +3277,16 @@ class StateEngine(object):
                 guarded(asl_state_Map_delegate), retry_timeout
             )
 
-        def asl_state_collect_results(state_type):
+        def asl_state_collect_results(state_type, held=False):
             """
             Collect the results from the branches of Parallel and Map states.
             Wait until every branch terminates (reaches a terminal state) before
             processing the Parallel or Map state's “Next” field.
+
+            held is True when the event of the Branch's terminal state has been
+            handed over to be acknowledged with the join (its handler reached
+            handle_terminal_state normally), False when the state's own handler
+            acknowledges it (it got here through handle_error).
             """
             # Get data object from event again to ensure we have result not input.
             data = event["data"]
@@ -3485,7 +3490,7 @@ class StateEngine(object):
                 the event ID in the results to None because the event will
                 get acknowledged by the Task state handler itself.
                 """
-                if previous_state_type == "Task" or previous_state_type == "Wait":
+                if (previous_state_type == "Task" or previous_state_type == "Wait") and not held:
                     event_ids[index] = None
 
                 """
